@@ -290,3 +290,44 @@ Proof.
     + split; [split; [cbn; tauto | exact I] | repeat split; reflexivity].
   - cbn. constructor; [cbn; intros [H|[]]; discriminate|]. constructor; [cbn; tauto|]. constructor.
 Qed.
+
+(** ---- A...B from the parsed parts: the tail of make_linked *)
+Definition build_linked (f b : aspec) (name : option str) (t : cmdtype) (base : params) (rw aw : bool) : res adapter_out :=
+  match t with
+  | TAnywhere => Err
+  | _ =>
+      let name := match name with Some n => Some n | None => sp_name f end in
+      let isr r := match r with RNone => false | _ => true end in
+      let fp := update base (sp_params f) in
+      let bp := update base (sp_params b) in
+      let freq0 := match t with TFront => true | _ => isr (sp_restriction f) end in
+      let breq0 := match t with TFront => true | _ => isr (sp_restriction b) end in
+      let freq := match get_key KRequired fp with Some v => truthy v | None => freq0 end in
+      let breq := match get_key KRequired bp with Some v => truthy v | None => breq0 end in
+      let fp := del_key KRequired fp in
+      let bp := del_key KRequired bp in
+      match make_single (class_of TFront (sp_restriction f) (sp_rightmost f)) (sp_sequence f) fp rw aw false None,
+            make_single (class_of TBack (sp_restriction b) (sp_rightmost b)) (sp_sequence b) bp rw aw false None with
+      | Ok fd, Ok bd => Ok (OLinked name fd bd freq breq)
+      | _, _ => Err
+      end
+  end.
+
+Theorem make_adapter_linked_meaning a1 a2 t base rw aw nm f b : wf_sast a1 -> wf_sast a2 ->
+  no_sub3 (show_sast a1 ++ [46; 46]) = true ->
+  spec_meaning a1 TFront = Ok f -> spec_meaning a2 TBack = Ok b ->
+  make_adapter (show_sast a1 ++ dots ++ show_sast a2) t base rw aw nm = build_linked f b nm t base rw aw.
+Proof.
+  intros H1 H2 Hd Hf Hb. destruct (make_adapter_linked_printed a1 a2 t base rw aw nm H1 H2 Hd) as (E & P1 & P2).
+  rewrite E. unfold make_linked, build_linked. rewrite P1, P2, Hf, Hb. destruct t; reflexivity.
+Qed.
+
+(** "^ACGT...TTTT;o=3" with -a: the anchored 5' part is required, the 3' part is not *)
+Definition ex_l1 : sast := mkA None MCaret [65;67;71;84] [].
+Definition ex_l2 : sast := mkA None MNone [84;84;84;84] [mkF [111] KMinOverlap (PInt [51])].
+Example linked_example :
+  make_adapter (show_sast ex_l1 ++ dots ++ show_sast ex_l2) TBack (globals_params (mkG (VDec 1 1) 3 false true true)) false true None
+  = Ok (OLinked None (mkD Prefix [65;67;71;84] (Qmake 1 10) 4 false false true false None)
+                     (mkD Back [84;84;84;84] (Qmake 1 10) 3 false false true false None) true false)
+  /\ show_sast ex_l1 ++ dots ++ show_sast ex_l2 = [94;65;67;71;84;46;46;46;84;84;84;84;59;111;61;51].
+Proof. split; vm_compute; reflexivity. Qed.
